@@ -115,7 +115,8 @@ def make_case(rng, gen, slot):
         case['lpre'], case['rpre'] = rng.choice([('l_', 'r_'), ('left_', 'rr.')])
         if table_sim:
             p, q = case['t']
-            classes = [(4 * p - 1, 4 * q), (p, q), (4 * p + 1, 4 * q)]
+            # score classes: clearly below / on / clearly above the threshold, and one unit in the last place off it
+            classes = [(4 * p - 1, 4 * q, 0), (p, q, 0), (4 * p + 1, 4 * q, 0), (p, q, 0), (p, q, 1), (p, q, -1)]
             case['simtab'] = [[l, r] + list(rng.choice(classes)) for l in (1, 2) for r in (3, 4)]
         else:
             case['simfn'] = rng.choice(['plain', 'bound'])
@@ -125,7 +126,7 @@ def make_case(rng, gen, slot):
         case['tok'] = {'kind': 'ws', 'rs': 1}
         if filt == 'OVERLAP':
             case['op'] = rng.choice(['>=', '>', '='])
-            case['t'] = [rng.choice([1, 1, 2, 3]), 1]
+            case['t'] = rng.choice([[1, 1], [1, 1], [2, 1], [3, 1], [3, 2], [5, 2]])    # the overlap size may be fractional
             case['meas'] = 'OVERLAP'
         else:
             case['op'] = '>='
@@ -196,9 +197,10 @@ def run_case(item):
                     lv = {r['id']: r['m'] for r in ltable.to_dict('records')}
                     rv = {r['id']: r['m'] for r in rtable.to_dict('records')}
                     table = {}
-                    for l, r, num, den in case['simtab']:
+                    import math
+                    for l, r, num, den, ulp in case['simtab']:
                         if not record.is_missing(lv[l]) and not record.is_missing(rv[r]):
-                            table[(lv[l], rv[r])] = num / den
+                            table[(lv[l], rv[r])] = num / den if ulp == 0 else math.nextafter(num / den, ulp * math.inf)
                     simfn = SimTable(table).score
                 elif case.get('simfn') == 'bound':
                     simfn = sm.Jaccard().get_raw_score
@@ -212,7 +214,7 @@ def run_case(item):
                                            n_jobs=nj, show_progress=False)
             else:
                 if case['filt'] == 'OVERLAP':
-                    flt = ssj.OverlapFilter(tok, case['t'][0], case['op'], allow_missing=bool(case['am']))
+                    flt = ssj.OverlapFilter(tok, record.threshold_value(case), case['op'], allow_missing=bool(case['am']))
                 else:
                     cls = getattr(ssj, record.FILTERS[case['filt']])
                     fthr = case['t'][0] if case['meas'] == 'OVERLAP' else thr
